@@ -122,7 +122,7 @@ func init() {
 	engine.Register(&engine.Prop{
 		ID:    "C16",
 		Level: "model_checking",
-		Rule: "unknown-key: every mapping level of the configuration types (reflection over nfpm.Config of the tree under test: top level, every nested block, list elements, overrides.<format>.*, file_info) with an undefined sibling key injected, and every leaf key misspelt, must be rejected; " +
+		Rule: "unknown-key: through every public entry point of the parser (ParseWithEnvMapping, Parse, ParseFile(path), ParseFile(-) reading stdin, ParseFileWithEnvMapping), every mapping level of the configuration types (reflection over nfpm.Config of the tree under test: top level, every nested block, list elements, overrides.<format>.*, file_info) with an undefined sibling key injected, and every leaf key misspelt, must be rejected; " +
 			"expand: every string / *string / string-list / string-map leaf x values {plain, ${V}, pre-$V-post, '  $E  ', '  padded  '} x mappings {V=val, V=empty, nil mapping}: values without '$' unchanged (list items trimmed), fields documented as expandable in configuration.md (parsed at run time) substituted with the caller's mapping, empty list items dropped; " +
 			"contents src/dst expanded iff expand:true (true/false/absent, top level and overrides); all 2^4 presence combinations of the four passphrase variables; non-trivial = document exercised the parser; distinct = distinct (path, value, mapping, outcome)",
 		Assumptions: []string{
@@ -239,12 +239,26 @@ func checkC16(env *engine.Env, ci any) engine.Outcome {
 			out.HarnessError = fmt.Sprintf("control document for level %q does not parse: %v", pathKey(c.Path), cerr)
 			return out
 		}
+		lvl := pathKey(c.Path)
+		if lvl == "" {
+			lvl = "(top)"
+		}
 		if err == nil {
-			lvl := pathKey(c.Path)
-			if lvl == "" {
-				lvl = "(top)"
-			}
 			viol("parse:unknown-key-accepted:"+lvl, "document with the undefined key %q at level %q was accepted:\n%s", c.Inject, lvl, text)
+		}
+		// every way of handing the parser a document is strict: Parse, ParseFile(path), ParseFile("-") = stdin,
+		// ParseFileWithEnvMapping
+		for name, perr := range parseEntryPoints(env, text) {
+			out.Transitions++
+			if perr == nil {
+				viol("parse:unknown-key-accepted:"+name+":"+lvl, "through %s the document with the undefined key %q at level %q was accepted:\n%s", name, c.Inject, lvl, text)
+			}
+		}
+		for name, perr := range parseEntryPoints(env, fixture.Doc(ctrl).YAML()) {
+			if perr != nil {
+				out.HarnessError = fmt.Sprintf("control document does not parse through %s: %v", name, perr)
+				return out
+			}
 		}
 	case "expand":
 		var val any = c.Value
@@ -468,4 +482,23 @@ func removeDeep(m map[string]any, path []string) {
 	if sub, ok := m[key].(map[string]any); ok {
 		removeDeep(sub, path[1:])
 	}
+}
+
+// parseEntryPoints parses text through every public entry point of the parser.
+func parseEntryPoints(env *engine.Env, text string) map[string]error {
+	res := map[string]error{}
+	_, res["Parse"] = nfpm.Parse(strings.NewReader(text))
+	p := filepath.Join(env.Scratch, "c16-entry.yaml")
+	os.WriteFile(p, []byte(text), 0o644)
+	defer os.Remove(p)
+	_, res["ParseFile"] = nfpm.ParseFile(p)
+	_, res["ParseFileWithEnvMapping"] = nfpm.ParseFileWithEnvMapping(p, noEnv)
+	if f, err := os.Open(p); err == nil {
+		old := os.Stdin
+		os.Stdin = f
+		_, res["ParseFile(-)"] = nfpm.ParseFile("-")
+		os.Stdin = old
+		f.Close()
+	}
+	return res
 }
